@@ -37,7 +37,8 @@ pre-existing failure, demonstration fails with the change and passes without
 it; worktree removed afterwards) and are kept under `/verif/seeded/<ID>-<n>/`
 (`patch.diff`, `demo.py`, `meta.json` with the author's notes on what the
 change needs in order to manifest; n = 1-3 first round, 4-7 second round, 8-11
-third round, 12-15 fourth round). One
+third round, 12-15 fourth round, 16-18 a fifth, small round for C03, C14, C17, C18,
+C19 and C20 - 25 minutes per agent, 14 changes). One
 delivery of the second round (`C13-5`) had been swapped with another agent's
 change through the repository-wide `git stash`; the confirmation step caught
 it (the demonstration passed with the patch) and the right diff, which the
@@ -64,7 +65,8 @@ repaired behaviour) and were retired to `seeded/retired/` with the reason in
 their `meta.json`. Fourth round: of its 80 changes 26 were reported by the check
 of their own property, 10 only by a neighbouring property's check and 44 by
 none; the rules of "round 5" below came out of that triage (41 of the 44 are
-reported now, three stay declined - below). Now **%d of %d** are reported, %d of them by the check of the very
+reported now, three stay declined - below). Fifth (small) round: 3 of 14 reported
+as the checks stood, all 14 after the rules of "round 6" below. Now **%d of %d** are reported, %d of them by the check of the very
 property the change was seeded for (shared rules are instantiated under both
 ids where the property text covers them). Every kept seed that a check
 reports is also part of that check's self-test in the thorough tier (the patch
@@ -289,6 +291,21 @@ spinner thread are unbounded; the end message is stored whatever it is),
 C20-R14 (the simple arm depends on `simple` alone), C20-R15 (every
 Highlighter is told the output's UTF-8 support; snippet call sites agree),
 C20-R16 (the source is split unstripped).
+
+Rules added or generalised in round 6 (fifth, small seeding round): C03-R18 (a
+configuration field that is changed in place is never bound to the caller's
+list), C14-R14 (cells are cut with `split('\\n')`, never `splitlines()`),
+C17-R16 (= the scratch-reset rule for `LabelAlignment.align`), C18-R16 (the
+answer is trimmed with `strip()`), C18-R17 (an entry is looked up by value
+before it is read as an index), C18-R18 (no reachable statement of the input
+stream's constructor moves the stream - the `seek(0)` of the unchanged tree is
+dead code: its guard `hasattr("stream", "seekable")` asks a string literal and
+is constant-false, which the CFG now folds; the seed "repairs" the guard),
+C19-R11 (the spinner side never resets the stop event), C19-R12 (every store to
+the redraw deadline comes from the millisecond clock), C19-R13 (the frame
+renderer is referenced under the lock only), C20-R9 (a handler around the
+tokenizer counts only when it takes TokenError and SyntaxError), C20-R17 (the
+ignore pattern is applied with `match()`).
 
 **Refactor twins (false-alarm test).** Four further rounds of twenty sub-agents,
 again given only a property record and a scratch worktree, each wrote four
